@@ -53,6 +53,24 @@ def gen(seed, tier):
         for op in ("s_center", "s_ljust", "s_rjust"):
             out.append(f"{op} {sa([1], [t])} {arr([6], [0, 1, 2, 3, 6, 7])} n")
             out.append(f"{op} {sa([1], [t])} {arr([1], [5])} {arr([1], [ord('*')])}")
+    # translate: every character through the first matching table entry (tables with repeated keys, identity, chains)
+    tables = [[], [("a", "b")], [("a", "b"), ("b", "a")], [("a", "x"), ("a", "y")], [(" ", "_"), ("-", " ")], [("A", "a"), ("a", "A"), ("0", "1")]]
+    for tb in tables:
+        flat = [ord(ch) for pr in tb for ch in pr]
+        for i in range(0, len(texts), 5):
+            chunk = texts[i:i + 5]
+            out.append(f"s_translate {sa([len(chunk)], chunk)} {lst(flat)}")
+        out.append(f"s_translate {sa([2, 2], ['ab', 'ba', 'a-b', ''])} {lst(flat)}")
+    # zfill: numeric strings (sign, digits, point) padded to a width; any non-numeric string refuses the whole call
+    nums = ["0", "7", "-7", "+7", "12", "-12", "1.5", "-1.5", ".5", "5.", "-.5", "007", "-0", "123456", "-123456", "0.25"]
+    bad = ["", "-", ".", "x", "1x", "--1", "1-2", "1.2.3", " 1", "1 ", "+-1", "y7"]
+    for w in (0, 1, 2, 3, 4, 5, 8, 12):
+        for i in range(0, len(nums), 4):
+            out.append(f"s_zfill {sa([4], nums[i:i + 4])} z{w}")
+        out.append(f"s_zfill {sa([2, 2], ['-5', '5', '12', '-1.5'])} z{w}")
+    for b in bad:
+        out.append(f"s_zfill {sa([2], ['12', b])} z4")
+        out.append(f"s_zfill {sa([1], [b])} z0")
     # split / rsplit / splitlines / replace
     seps = ["-", " ", ",", "ab", "--", "a"]
     for t in texts:
